@@ -647,6 +647,12 @@ func (g *c15g) twoStreams(c string, n0, n1 int, firstEnds int, tail int) []strin
 	ops := []string{"c15 open " + c + " fresh", "c15 wstart " + c + " 0"}
 	ops = append(ops, g.values(c, 0, r.Intn(3), 1)...)
 	ops = append(ops, "c15 csend "+c+" fresh", "c15 wstart "+c+" 1")
+	// wstart only tells that the handler was invoked; the adapter registers the
+	// new forwarder after the handler returned. A value taken from channel 1
+	// proves that its forwarder runs, so that closing channel 0 next cannot
+	// race with the registration (the request would then be refused: allowed,
+	// but not what this scenario is about).
+	ops = append(ops, g.values(c, 1, 1, 1)...)
 	left := []int{n0, n1}
 	for left[0]+left[1] > 0 {
 		k := r.Intn(2)
